@@ -1,6 +1,22 @@
-"""C11 - pooled-buffer ownership."""
-from .. import resp_props
+"""C11 - pooled-buffer ownership: the HTTP response leg (resp_props) and the WebSocket codec leg
+(ws_props scenarios under the tracking allocator)."""
+from .. import resp_props, ws_props, common
 
 
 def run(res, scratch, *, tier, seed, replay):
-    resp_props.run_focus(res, scratch, "C11", tier=tier, seed=seed, replay=replay)
+    if replay:
+        import json
+        sc = json.load(open(replay))["script"]
+        if sc.get("mode") in ("C12", "C13", "C15"):
+            return ws_props.run_focus(res, scratch, "C11", tier=tier, seed=seed, replay=replay)
+        return resp_props.run_focus(res, scratch, "C11", tier=tier, seed=seed, replay=replay)
+    resp_props.run_focus(res, scratch, "C11", tier=tier, seed=seed, replay=None)
+    # WebSocket codec scenarios under the ownership-tracking allocator
+    ov = common.make_overlay(scratch, shim=[])
+    binary = common.go_build(scratch, "./cmd/wscodec", overlay=ov, name="wscodec")
+    cases = ws_props.c12_cases(tier, seed, "C11")
+    cases = [c for i, c in enumerate(cases) if i % (4 if tier == "quick" else 1) == 0]
+    cases += [c for i, c in enumerate(ws_props.c13_cases(res, scratch, tier, seed, "C11")) if i % (3 if tier == "quick" else 1) == 0]
+    cases += ws_props.c15_cases(tier, seed, "C11")
+    ws_props.run_cases(res, scratch, binary, cases, "C11")
+    res.coverage["distinct_nontrivial"] += len(cases)
